@@ -17,7 +17,52 @@ import sys
 
 from harness.core import MachineryError
 
-MODEL_MODULES = ['SkyllhModel.Model.Coll']
+MODEL_MODULES = ['SkyllhModel.Model.Coll', 'SkyllhModel.Model.CollR7']
+
+# Python callable -> the executable Lean definitions that mirror it, that the c20_* theorems are about and that
+# run(ctx) compares with the real callable on every run
+_CM = ['Coll.cmethod', 'Coll.cstep']
+MODEL_MAP = {
+    'skyllh/core/py.py::make_dict_hash': ['Coll.makeDictHash', 'Coll.gridKey', 'Coll.normVal', 'Coll.canon'],
+    'skyllh/core/py.py::NamedObjectCollection.__init__': ['Coll.mkNamed', 'Coll.ctorType', 'Coll.addEach'],
+    'skyllh/core/py.py::NamedObjectCollection.add': ['Coll.plan', 'Coll.checkObj', 'Coll.checkSeq', 'Coll.extendAt'],
+    'skyllh/core/py.py::NamedObjectCollection.pop': ['Coll.plan', 'Coll.eraseAt'],
+    'skyllh/core/py.py::NamedObjectCollection.copy': ['Coll.copyOf', 'Coll.copyStepWith'],
+    'skyllh/core/py.py::ObjectCollection.copy': ['Coll.copyOf'],
+    'skyllh/core/py.py::ObjectCollection.__add__': ['Coll.plan', 'Coll.applyActWith'],
+    'skyllh/core/py.py::NamedObjectCollection._create_obj_name_to_idx_dict': ['Coll.createIdx', 'Coll.namePairs'],
+    'skyllh/core/py.py::NamedObjectCollection.name_list': ['Coll.nameList'],
+    'skyllh/core/py.py::NamedObjectCollection.get_index_by_name': ['Coll.lookupIdx'],
+    'skyllh/core/py.py::NamedObjectCollection.__getitem__': ['Coll.getItem', 'Coll.getItemName', 'Coll.getItemIdx'],
+    'skyllh/core/py.py::ObjectCollection.__len__': ['Coll.len'],
+    'skyllh/core/py.py::ObjectCollection.index': ['Coll.indexOf'],
+    'skyllh/core/pdf.py::PDFSet.make_key': ['Coll.makeDictHash'],
+    'skyllh/core/pdf.py::PDFSet.add_pdf': ['Coll.addPdfE'],
+    'skyllh/core/pdf.py::PDFSet.get_pdf': ['Coll.getPdfE'],
+    'skyllh/core/pdf.py::PDFSet.__contains__': ['Coll.containsE'],
+    'skyllh/core/pdf.py::PDFSet.pdf_keys': ['Coll.pdfKeys'],
+    'skyllh/core/datafields.py::DataFieldStages.and_check': ['Coll.andCheckE', 'Coll.andCheck', 'Coll.andCheckSeq'],
+    'skyllh/core/datafields.py::DataFieldStages.or_check': ['Coll.orCheckE', 'Coll.orCheck', 'Coll.orCheckSeq'],
+    'skyllh/core/datafields.py::DataFields.get_joint_names': ['Coll.jointNamesE'],
+    'skyllh/core/config.py::Config.__init__': ['Coll.newCfg', 'Coll.Cfg.deepCopy'],
+    'skyllh/core/config.py::Config.from_dict': ['Coll.cstep', 'Coll.Cfg.update', 'Coll.Cfg.deepCopy'],
+    'skyllh/core/config.py::Config.from_yaml': ['Coll.cstep', 'Coll.Cfg.update'],
+    'skyllh/core/config.py::Config.is_tracing_enabled': _CM + ['Coll.methodsOk'],
+    'skyllh/core/config.py::Config.enable_tracing': _CM + ['Coll.methodsOk'],
+    'skyllh/core/config.py::Config.disable_tracing': _CM + ['Coll.methodsOk'],
+    'skyllh/core/config.py::Config.set_enable_tracing': _CM + ['Coll.methodsOk'],
+    'skyllh/core/config.py::Config.set_ncpu': _CM + ['Coll.methodsOk'],
+    'skyllh/core/config.py::Config.set_internal_units': _CM + ['Coll.unitLine', 'Coll.runScript', 'Coll.methodsOk'],
+    'skyllh/core/config.py::Config.set_wd': _CM + ['Coll.sysRemove'],
+    'skyllh/core/config.py::Config.get_wd': _CM + ['Coll.methodsOk'],
+    'skyllh/core/config.py::Config.to_internal_time_unit': _CM + ['Coll.methodsOk'],
+    'skyllh/core/config.py::Config.wd_filename': _CM,
+    'skyllh/core/dataset.py::DatasetCollection.add_datasets': ['Coll.dsAddEach', 'Coll.dsStep'],
+    'skyllh/core/dataset.py::DatasetCollection.__iadd__': ['Coll.dsStep'],
+    'skyllh/core/dataset.py::DatasetCollection.remove_dataset': ['Coll.dsStep'],
+    'skyllh/core/dataset.py::DatasetCollection.get_dataset': ['Coll.dsStep'],
+    'skyllh/core/dataset.py::DatasetCollection.dataset_names': ['Coll.datasetNames'],
+}
 
 STAGE_NAMES = ['DATAPREPARATION_EXP', 'DATAPREPARATION_MC', 'ANALYSIS_EXP', 'ANALYSIS_MC']
 STAGE_RECORDED = [1, 2, 4, 8]
@@ -36,14 +81,22 @@ def generated(ctx):
             ctx.proof['generated_fallbacks'].append(name)
             v = rec
         vals.append(v)
-    return ('-- generated by harness/props/c20.py from skyllh/core/datafields.py; do not edit\n'
+    from harness import c20_r7_fixtures as r7
+    try:
+        cfg_text = r7.lean_text(r7.extract_config())
+    except Exception as e:  # noqa
+        ctx.note('C20: extraction of the _BASECONFIG shape / the key chains of the Config methods failed (%s); using the '
+                 'recorded shape' % (e,))
+        ctx.proof['generated_fallbacks'].append('config-shape')
+        cfg_text = r7.lean_text(r7.RECORDED)
+    return ('-- generated by harness/props/c20.py from skyllh/core/datafields.py and skyllh/core/config.py; do not edit\n'
             'namespace Gen.C20\n'
             'def dataprepExp : Nat := %d\n'
             'def dataprepMc : Nat := %d\n'
             'def analysisExp : Nat := %d\n'
             'def analysisMc : Nat := %d\n'
-            'def stageBits : List Nat := [dataprepExp, dataprepMc, analysisExp, analysisMc]\n'
-            'end Gen.C20\n' % tuple(vals))
+            'def stageBits : List Nat := [dataprepExp, dataprepMc, analysisExp, analysisMc]\n' % tuple(vals)
+            + cfg_text + 'end Gen.C20\n')
 
 
 # ------------------------------------------------------------------------------------------
@@ -127,6 +180,8 @@ def enc_op(op):
         return 'P:%d:%s' % (op[1], 'n' if op[2] is None else int(op[2]))
     if k == 'Q':
         return 'Q:%d:%d' % (op[1], op[2])
+    if k == 'Y':     # `c.copy()` (round 7)
+        return 'Y:%d' % op[1]
     if k == 'K':     # constructor: ['K', ty | None, form n|s|q|t|a, [objs]]
         form = {'n': 'n', 's': 's'}.get(op[2], 'q')
         return 'K:%s:%s:%s' % ('n' if op[1] is None else op[1], form, ';'.join(enc_obj(o) for o in op[3]) or '-')
@@ -242,6 +297,10 @@ class CollWorld(object):
             if k == 'Q':
                 r = c.pop(nm(op[2]))
                 return 'obj:%d' % self.ident.get(id(r), 99)
+            if k == 'Y':
+                r = c.copy()
+                w.append(r)
+                return 'coll:%d' % (len(w) - 1)
             if k in ('+A', '+C', '+S'):
                 arg = self.objs[op[2]] if k == '+A' else (w[op[2]] if k == '+C' else [self.objs[o] for o in op[2]])
                 if k == '+S' and len(op) > 3:
@@ -441,6 +500,9 @@ def o_coll_hist(ctx, case):
                 else:
                     new_ref[j][1] = ids + xs
                     exp_res = 'ok'
+            elif k == 'Y':
+                new_ref.append([ty, list(ids)])
+                exp_res = 'coll:%d' % (len(new_ref) - 1)
             elif k in ('P', 'Q'):
                 if k == 'P':
                     i = len(ids) - 1 if op[2] is None else int(op[2])
@@ -476,7 +538,7 @@ def o_coll_hist(ctx, case):
             msg = _check_coll(c, ids, cw)
             if msg:
                 return '%s: collection %d: %s' % (where, ci, msg)
-        if k[0] == '+' and got.startswith('coll:'):
+        if (k[0] == '+' or k == 'Y') and got.startswith('coll:'):
             r = cw.world[-1]
             if type(r) is not type(before[op[1]]):
                 return '%s: the result of + is a %s, the operand a %s' % (where, type(r).__name__, type(before[op[1]]).__name__)
@@ -1091,6 +1153,8 @@ def _create_cfg(cm, mode, users):
         return cm.Config()
     if mode in ('fd0', 'fd1'):
         return cm.Config.from_dict(users[int(mode[2])])
+    if mode == 'yamlN':      # round 7: the `pathfilename is None` branch — "nothing is done"
+        return cm.Config.from_yaml(None)
     return cm.Config.from_yaml(_yaml_fixture()[0])
 
 
@@ -1453,6 +1517,56 @@ def _impl_query(c, q):
         return 'E:' + type(e).__name__
 
 
+_R7_STATS = collections.Counter()
+
+
+def _holder(cm, c):
+    """an object of a class derived from HasConfig holding `c` (None when the class is not there)"""
+    HC = getattr(cm, 'HasConfig', None)
+    if HC is None:
+        return None
+    H = type('C20Holder', (HC,), {})
+    return H(cfg=c)
+
+
+def o_has_config(ctx, case):
+    """implementation only: a HasConfig holder hands out the very Config instance it was given (two holders of one
+    configuration see each other's edits, holders of different configurations do not); anything that is not a
+    Config is refused with TypeError"""
+    F = cfg_fixtures()
+    cm = F['mod']
+    with CfgRun({'create': [], 'edits': []}):
+        a, b = cm.Config(), cm.Config()
+        ha, ha2, hb = _holder(cm, a), _holder(cm, a), _holder(cm, b)
+        if ha is None:
+            return None
+        if ha.cfg is not a or ha2.cfg is not a or hb.cfg is not b:
+            return 'HasConfig.cfg does not return the Config instance the holder was given'
+        M = _mutators()
+        M[case['mutator']][0](ha.cfg)
+        ref = cm.Config()
+        M[case['mutator']][0](ref)
+        if dict(ha2.cfg) != dict(ref) or dict(a) != dict(ref):
+            return 'an edit (%s) through one holder is not seen through a second holder of the same configuration' % case['mutator']
+        if dict(hb.cfg) != dict(cm.Config()):
+            return 'an edit (%s) through a holder of one configuration changed the configuration of another holder' % case['mutator']
+        for bad in ({}, dict(a), None):
+            try:
+                _holder(cm, bad)
+                return 'HasConfig accepts %s as configuration' % type(bad).__name__
+            except TypeError:
+                pass
+        try:
+            ha.cfg = dict(a)
+            return 'the cfg setter accepts a plain dict'
+        except TypeError:
+            pass
+        hb.cfg = a
+        if hb.cfg is not a:
+            return 'the cfg setter does not store the given instance'
+    return None
+
+
 class CfgRun(object):
     """runs a configuration case on the real code; yields the request line for the model and the
     canonical final world"""
@@ -1504,16 +1618,25 @@ class CfgRun(object):
             elif mode == 'yaml':
                 c = cm.Config.from_yaml(yaml_path)
                 ops.append('fd:%d' % (len(users) + 1))
+            elif mode == 'yamlN':
+                c = cm.Config.from_yaml(None)
+                ops.append('new')
             else:
                 raise MachineryError('C20: unknown creation mode %r' % (mode,))
             results.append(('ok', 1))
             cfgs.append(c)
             world.append(c)
+        # round 7, glue: how the caller got hold of the configuration — directly, or through the `cfg` property of a
+        # HasConfig holder (every odd-numbered edit of a case; a holder must hand out the instance it was given)
+        holders = [_holder(cm, c) for c in cfgs]
         nfix = len(world) - len(cfgs)
-        for which, mname in self.case['edits']:
+        for eno, (which, mname) in enumerate(self.case['edits']):
             fn = M[mname][0]
             # 'u0' / 'u1': the edit is made on the user dictionary that was handed to from_dict before
             target = users[int(which[1])] if isinstance(which, str) else cfgs[which]
+            if not isinstance(which, str) and eno % 2 == 1 and holders[which] is not None:
+                target = holders[which].cfg
+                _R7_STATS['cfg:edit-through-HasConfig-holder'] += 1
             widx = 1 + int(which[1]) if isinstance(which, str) else nfix + which
             try:
                 fn(target)
@@ -1623,6 +1746,8 @@ def o_config(ctx, case):
             elif mode in ('fd0', 'fd1'):
                 c = cm.Config.from_dict(users[int(mode[2])])
                 ref.update(copy.deepcopy(users_snapshot[int(mode[2])]))
+            elif mode == 'yamlN':
+                c = cm.Config.from_yaml(None)
             else:
                 c = cm.Config.from_yaml(yaml_path)
                 ref.update(copy.deepcopy(yaml_dict))
@@ -1690,8 +1815,107 @@ def _diff(a, b, path=''):
 # ------------------------------------------------------------------------------------------
 # correspondence replay (model vs implementation on one stored case)
 
+# ------------------------------------------------------------------------------------------
+# round 7: navigation outcomes of the Config methods on a shape (`mok`), writes that allocate (`xw`)
+
+def mok_impl(case):
+    """-> (request line, implementation answer | None, error text | None)"""
+    from harness import c20_r7_fixtures as r7
+    F = cfg_fixtures()
+    E = dict(r7.shape_edits())
+    with CfgRun({'create': [], 'edits': []}):
+        c = F['mod'].Config()
+        for e in case['edits']:
+            try:
+                E[e](c)
+            except (KeyError, TypeError, AttributeError):
+                pass     # the section the edit addresses is gone / a scalar: the edit is skipped
+        dicts, leaves = flatten(c, _Table(1))
+        flags, err = r7.impl_methods_ok(c, F['units'])
+    line = 'mok ' + _enc_cfg(dicts, leaves)
+    return line, (None if flags is None else ''.join(str(f) for f in flags)), err
+
+
+def xw_impl(case):
+    """-> (request line, per-op results of the implementation, canonical final world, reference check text | None)"""
+    from harness import c20_r7_fixtures as r7
+    F = cfg_fixtures()
+    with CfgRun({'create': [], 'edits': []}) as r:
+        base = r.base()
+        cfgs = r7.xw_world(F['mod'], F['user'])
+        refs = [copy.deepcopy(dict(c)) for c in cfgs]
+        base0 = copy.deepcopy(base)
+        lt = _Table(1)
+        init = [flatten(x, lt) for x in cfgs]
+        res, toks, bad = [], [], None
+        for grp in _canon_world(init)[1]:
+            if len(set(ci for ci, _ in grp)) > 1:
+                bad = ('configurations made by Config() / from_dict (two of them from one user dictionary) share a container: '
+                       '%r' % ([(ci, [_CT['kt'].d and next((k for k, c_ in _CT['kt'].d.items() if c_ == x), x) for x in pth])
+                                for ci, pth in grp][:4],))
+                break
+        for step, op in enumerate(case['ops']):
+            kind, j, path, k, v = op
+            out = r7.xw_apply(cfgs, op)
+            ref_out = r7.xw_apply(refs, op)
+            enc = lambda o: o if isinstance(o, str) and (o == 'ok' or o.startswith('E:')) else (  # noqa
+                'cont' if isinstance(o, (dict, list)) else 'v%d' % vcode(o))
+            res.append(enc(out))
+            if bad is None and enc(out) != enc(ref_out):
+                bad = 'step %d (%s through configuration %d): the configuration answers %s, an independent dictionary %s' % (
+                    step, kind, j, enc(out), enc(ref_out))
+            if bad is None:
+                for i, (c, ref) in enumerate(zip(cfgs, refs)):
+                    if dict(c) != ref:
+                        bad = ('step %d (%s at %r[%r] through configuration %d): configuration %d is %s' % (
+                            step, kind, path, k, j, i, 'not the edited one and changed' if i != j else
+                            'the edited one and differs from the reference: ' + _diff(dict(c), ref)))
+                        break
+                if bad is None and base != base0:
+                    bad = 'step %d: the base configuration changed' % step
+            pp = _enc_path([kcode(x) for x in path])
+            toks.append('%s:%d:%s:%d' % (kind, j, pp, kcode(k)) + (':%d' % vcode(v) if kind in ('sdv', 'set') else ''))
+        final = [flatten(x, lt) for x in cfgs]
+    line = 'xw %s %s' % ('|'.join(_enc_cfg(d, l) for d, l in init), ' '.join(toks))
+    return line, res, _canon_world(final), bad
+
+
+def xw_compare(res, canon_impl, answer):
+    toks = answer.split(' ')
+    if toks[0] != 'inv=1':
+        raise MachineryError('C20: the initial world of an allocating-write case shares containers: ' + toks[0])
+    body, wtok = toks[1:-1], toks[-1]
+    for t in body:
+        if t.split('#')[1] != '1':
+            raise MachineryError('C20: allocating write: world semantics / specification / invariant of the Lean model disagree: ' + t)
+    mres = [t.split('#')[0] for t in body]
+    if mres != res:
+        k = [i for i, (a, b) in enumerate(zip(res, mres)) if a != b][0]
+        return 'allocating-write history, call %d: implementation %r, model %r' % (k, res[k], mres[k])
+    canon_model = _canon_world(_parse_cfg_world(wtok[2:]))
+    if canon_model != canon_impl:
+        return 'allocating-write history: final content / container sharing differs: implementation %r, model %r' % (
+            canon_impl[1][:4], canon_model[1][:4])
+    return None
+
+
+def o_config_alloc(ctx, case):
+    """implementation only: `d[k] = {}` / `setdefault` through one configuration vs independent plain dictionaries"""
+    return xw_impl(case)[3]
+
+
 def o_corr(ctx, case):
     k = case['kind']
+    if k == 'mok':
+        line, impl, err = mok_impl(case)
+        if err:
+            return err
+        ans = cfg_batch(ctx, [line])[0].split(' ')[0]
+        return None if ans == impl else 'navigation outcomes of the methods after %r: implementation %s, model %s' % (
+            case['edits'], impl, ans)
+    if k == 'xw':
+        line, res, canon, _ = xw_impl(case)
+        return xw_compare(res, canon, cfg_batch(ctx, [line])[0])
     if k == 'coll':
         ops = case['ops']
         impl, _ = impl_hist(ops)
@@ -1978,7 +2202,7 @@ def gen_dict_cases(ctx):
     return cases
 
 
-ORACLES = {'dataset_coll': o_dataset_coll, 'config_queries': o_config_queries, 'stage_consts': o_stage_consts, 'coll_hist': o_coll_hist, 'plain_plus': o_plain_plus, 'hash_order': o_hash_order, 'stage': o_stage,
+ORACLES = {'has_config': o_has_config, 'config_alloc': o_config_alloc, 'dataset_coll': o_dataset_coll, 'config_queries': o_config_queries, 'stage_consts': o_stage_consts, 'coll_hist': o_coll_hist, 'plain_plus': o_plain_plus, 'hash_order': o_hash_order, 'stage': o_stage,
            'config': o_config, 'corr': o_corr}
 
 
@@ -2147,8 +2371,10 @@ def random_hist(rng, length, unique_bias):
             if op[2] is not None and rng.random() < 0.3:
                 form = rng.choice(['bool', 'np', 'float'])
                 op = ['P', j, rng.choice([0, 1]) if form == 'bool' else op[2], form]
-        else:
+        elif r < 0.93:
             op = ['Q', j, rng.choice([0, 1, 2, 3, 4, 6, UNKNOWN_NAME])]
+        else:
+            op = ['Y', j]
         if op[0] in ('A', 'C', 'S') and rng.random() < 0.4:
             op.append('i')
         if op[0] in ('S', '+S') and op[2] and rng.random() < 0.5:
@@ -2157,7 +2383,7 @@ def random_hist(rng, length, unique_bias):
                 op[3] += form
             else:
                 op.append(form)
-        if op[0][0] == '+' and n >= 6:
+        if (op[0][0] == '+' or op[0] == 'Y') and n >= 6:
             continue
         cw.do(op)
         ops.append(op)
@@ -2342,6 +2568,8 @@ def coll_tag(op):
         return 'pop.neg' if op[2] < 0 else 'pop.pos'
     if k == 'Q':
         return 'popName'
+    if k == 'Y':
+        return 'copy'
     if k == 'K':
         form = {'n': 'none', 's': 'single'}.get(op[2], 'seq' if op[3] else 'emptyseq')
         return 'ctor.%s.%s' % ('given' if op[1] is not None else 'inferred', form if not (op[1] is not None and form == 'emptyseq') else 'seq')
@@ -2362,6 +2590,7 @@ ALL_BRANCHES = (
     ['coll:addObj.subclass:ok', 'coll:addObj.subclass:TypeError', 'coll:addColl.self:ok', 'coll:plusColl.self:ok'] +
     ['coll:%s:%s' % (o, r) for o in ('addSeq', 'addSeq.tuple', 'addSeq.ndarray', 'plusSeq', 'plusSeq.tuple')
      for r in ('ok', 'TypeError')] +
+    ['coll:copy:ok'] +
     ['coll:addSeq.empty:TypeError', 'coll:plusSeq.empty:TypeError', 'coll:addSeq.mixed:ok', 'coll:addSeq.mixed:TypeError',
      'coll:pop.default:ok', 'coll:pop.default:IndexError', 'coll:pop.pos:ok', 'coll:pop.pos:IndexError',
      'coll:pop.neg:ok', 'coll:pop.neg:IndexError', 'coll:pop.bool:ok', 'coll:pop.bool:IndexError', 'coll:pop.np:ok',
@@ -2382,7 +2611,11 @@ ALL_BRANCHES = (
      'cfg:m.units:KeyError', 'cfg:m.wd:TypeError', 'cfg:m.wd:KeyError', 'cfg:m.et:KeyError', 'cfg:m.ite:KeyError',
      'cfg:m.getwd:TypeError', 'cfg:m.getwd:KeyError', 'cfg:m.titu:KeyError', 'cfg:m.titu:UnitConversionError',
      'cfg:m.wdf:TypeError', 'cfg:m.wdf:KeyError', 'cfg:m.ncpu:KeyError', 'cfg:m.units.bad:KeyError', 'cfg:m.wd.default:KeyError',
-     'cfg:m.wd.default:TypeError'])
+     'cfg:m.wd.default:TypeError'] +
+    ['mok:%s:%s' % (n, r) for n in ('tracingW', 'ncpuW', 'unitsW', 'tracingR', 'wdR', 'timeR') for r in ('ok', 'navigation-error')] +
+    ['xw:nd:ok', 'xw:nd:KeyError', 'xw:nd:TypeError', 'xw:set:ok', 'xw:set:KeyError', 'xw:set:TypeError', 'xw:sdd:cont',
+     'xw:sdd:val', 'xw:sdd:KeyError', 'xw:sdv:cont', 'xw:sdv:val', 'xw:sdv:KeyError'])
+# (xw:sdd:TypeError / xw:sdv:TypeError — a scalar where the dict is expected — occur in random histories only: unlisted)
 
 
 def _resolve(ctx, suspicious, ndis):
@@ -2516,6 +2749,16 @@ def run(ctx):
                ['S', 0, [6, 6], 't'], ['+S', 0, [6], 't'], ['S', 0, [6], 'a'], ['S', 1, [0, 1], 't'], ['+S', 1, [2], 't']],
               [['N', 0], ['A', 0, 0], ['A', 0, 1], ['P', 0, 1, 'bool'], ['P', 0, 5, 'np'], ['P', 0, 1, 'bool'], ['P', 0, 0, 'float'],
                ['P', 0, 0, 'np'], ['P', 0, None], ['P', 0, -1]]]
+    # round 7: `copy()` as a call of its own — after every prefix of 0..3 adds, every ordered pair of
+    # calls on the original / the copy (the copy and the original must evolve independently); quick: prefixes 0 and 2
+    def _small(j):
+        return [['A', j, 3], ['A', j, 4, 'i'], ['P', j, None], ['P', j, 0], ['Q', j, 0], ['+A', j, 3], ['C', j, 1 - j], ['Y', j]]
+    for npre in (range(4) if ctx.thorough else (0, 2)):
+        pre = [['N', 0]] + [['A', 0, o] for o in range(npre)] + [['Y', 0]]
+        for n1, op1 in enumerate(_small(0) + _small(1)):
+            for n2, op2 in enumerate(_small(0) + _small(1)):
+                if ctx.thorough or (n1 + n2 + npre) % 3 == 0:
+                    hists.append(pre + [op1, op2])
     nchain = len(chains)
     hists = chains + hists
 
@@ -2696,6 +2939,9 @@ def run(ctx):
         k = rng.randrange(1, 4)
         ccases.append({'kind': 'cfg', 'create': [rng.choice(CREATE_MODES) for _ in range(k)],
                        'edits': [[rng.randrange(k), rng.choice(M)] for _ in range(rng.randrange(1, 7))]})
+    for m in M:       # round 7: `from_yaml(None)` = `Config()` (directed; not part of the creation-pair space)
+        ccases.append({'kind': 'cfg', 'create': ['yamlN', rng.choice(CREATE_MODES)], 'edits': [[0, m], [1, rng.choice(M)]]})
+        ccases.append({'kind': 'cfg', 'create': [rng.choice(CREATE_MODES), 'yamlN'], 'edits': [[0, rng.choice(M)], [1, m]]})
     OO = list(_oracle_only_mutators().keys())
     for m in OO:      # edits outside the Lean model: reference oracles only
         for cr in (['new', 'new'], ['fd1', 'fd1'], ['fd0', 'fd1']):
@@ -2786,6 +3032,61 @@ def run(ctx):
             pass
 
     D.add([r_[0] for r_ in runs if r_ is not None], after_cfg)
+
+    # ---- round 7: which methods find their keys on a configuration of a given shape; writes that allocate
+    from harness import c20_r7_fixtures as r7
+    enames = [n for n, _ in r7.shape_edits()]
+    mcases = [{'kind': 'mok', 'edits': [a]} for a in enames] + [
+        {'kind': 'mok', 'edits': [a, b]} for a in enames for b in enames if a != 'none' and b != 'none' and a != b]
+    if not ctx.thorough:
+        mcases = mcases[:len(enames)] + rng.sample(mcases[len(enames):], 24)
+    mruns = [mok_impl(c) for c in mcases]
+
+    def after_mok(answers):
+        names = ('tracingW', 'ncpuW', 'unitsW', 'tracingR', 'wdR', 'timeR')
+        for c, (line, impl, err), ans in zip(mcases, mruns, answers):
+            ctx.case(key=('mok', tuple(c['edits'])), desc=c if len(c['edits']) == 1 and c['edits'][0] == 'del_units' else None)
+            ctx.count('cfg:method-navigation-shapes')
+            flags = ans.split(' ')[0]
+            for n, f in zip(names, flags):
+                ctx.count('br:mok:%s:%s' % (n, 'ok' if f == '1' else 'navigation-error'))
+            if ans.split(' ')[1] != 'all=%d' % int(flags == '111111'):
+                raise MachineryError('C20: methodPathsOk is not the conjunction of the six outcomes: ' + ans)
+            if err or impl != flags:
+                ctx.violation('corr', c, err or 'navigation outcomes of the Config methods (tracing setters, set_ncpu, '
+                              'set_internal_units, is_tracing_enabled, working directory, to_internal_time_unit) after the '
+                              'edits %r on a fresh Config(): implementation %s, model %s' % (c['edits'], impl, flags),
+                              kind='correspondence', relation='exact', signature='C20/Config/method-navigation',
+                              no_failing_input=True)
+    D.add([m[0] for m in mruns], after_mok)
+    for mname in _mutators():
+        ctx.case(key=('has_config', mname))
+        ctx.count('oracle:has_config')
+        res = o_has_config(ctx, {'mutator': mname})
+        if res:
+            ctx.violation('has_config', {'mutator': mname}, res, signature='C20/HasConfig/holder-identity')
+
+    xcases = [dict(ops=r7.XW_DIRECTED, kind='xw')] + [
+        dict(r7.gen_xw_case(rng, rng.randrange(2, 9)), kind='xw') for _ in range(ctx.n(150, 1500))]
+    xruns = [xw_impl(c) for c in xcases]
+
+    def after_xw(answers):
+        for c, (line, res, canon, bad), ans in zip(xcases, xruns, answers):
+            ctx.case(key=('xw', repr(c['ops'])), desc=c if ctx.evaluations % 499 == 0 else None)
+            ctx.count('cfg:allocating-write-histories')
+            for op, r_ in zip(c['ops'], res):
+                present = r_ not in ('ok',) and not r_.startswith('E:')
+                ctx.count('br:xw:%s:%s' % (op[0], 'TypeError' if r_ == 'E:TypeError' else 'KeyError' if r_ == 'E:KeyError'
+                                           else 'ok' if op[0] in ('nd', 'set') else ('cont' if r_ == 'cont' else 'val')))
+            if bad:
+                ctx.violation('config_alloc', c, bad, signature='C20/Config/' + (
+                    'from_dict-shared-state' if 'share a container' in bad else _classify_cfg(c, bad)))
+                continue
+            d = xw_compare(res, canon, ans)
+            if d:
+                ctx.violation('corr', c, d, kind='correspondence', relation='exact', signature='C20/Config/allocating-write',
+                              no_failing_input=True)
+    D.add([x[0] for x in xruns], after_xw)
     # ---- disagreements model / implementation: failing-input search, else report the relation
     resolve()
     # the self-test of the location semantics presupposes an implementation that otherwise agrees with the model
@@ -2800,6 +3101,9 @@ def run(ctx):
     # one driver process for all requests of the run (its start-up dominates the cost of a request)
     D.flush(ctx)
     resolve()
+    for k_, v_ in _R7_STATS.items():
+        ctx.count(k_, v_)
+    _R7_STATS.clear()
     hits = set(k[3:] for k in ctx.counters if k.startswith('br:'))
     zero = [b for b in ALL_BRANCHES if b not in hits]
     ctx.extra['counts'] = {k[3:]: v for k, v in sorted(ctx.counters.items()) if k.startswith('br:')}
@@ -2848,7 +3152,7 @@ def _classify_cfg(case, res):
 
 
 MANIFEST = dict(
-    text=('Lean theorems (59): for every sequence of constructor calls, add / += / pop / + on any number of named collections '
+    text=('Lean theorems (75): for every sequence of constructor calls, add / += / pop / + on any number of named collections '
           '(any class hierarchy, every argument form) the name index equals the index rebuilt from the object list — lookup by '
           'name = position, name_list = names in order, c[i] / c[-i] / c.index consistent — in every world a program can build '
           '(no invariant assumed: constructors establish it); the world model with Python object identities refines independent '
@@ -2860,10 +3164,15 @@ MANIFEST = dict(
           'the configuration it was made through, and everything observed through one configuration depends on the calls made '
           'through it only (non-interference); a class-level memo provably breaks it. DatasetCollection keeps one dataset per '
           'name. The executable model is compared exactly with the real classes on every run (one driver batch), with a '
-          'counter per model branch; reference oracles search for failing inputs.'),
+          'counter per model branch; reference oracles search for failing inputs. Round 7: the shape of _BASECONFIG and the '
+          'key chains of every Config method are read from the current source (ast) and the proof obligations '
+          'c20_base_paths_ / c20_method_keys_ / c20_fresh_config_*_for_current_source show that every method of a fresh '
+          'Config() finds its keys; methodsOk (navigation outcome per method group), the allocating writes d[k] = {} / '
+          'setdefault and copy() as a call of its own are executable, proved isolated / pure and compared on every run.'),
     note=('Python hash() (collision free on the item sets that occur), os.path.abspath / join and astropy unit conversion are '
-          'parameters of the model (tabulated from the real functions per run); names of stored objects are str; setdefault / '
-          'writes of new dict values and HasConfig holders are outside the Lean model (reference oracle only). The finite spaces '
+          'parameters of the model (tabulated from the real functions per run); names of stored objects are str; writes of '
+          'caller-supplied non-empty containers are outside the Lean model (reference oracle only); a HasConfig holder is the '
+          'configuration it holds (identity checked by the has_config oracle). The finite spaces '
           'of the quantifier are enumerated completely in the thorough tier only.'),
     design='DESIGN.md section 4 C20',
     technique='Lean 4 proof (induction over call lists, refinement of a location-labelled world model, non-interference by simulation, negative models) + exact model/implementation correspondence with branch counters')
